@@ -33,6 +33,7 @@ def parse : List String → Option Ev
   | ["kill"] => some .kill
   | ["dial", "ok"] => some (.dial true)
   | ["dial", "fail"] => some (.dial false)
+  | ["backoff"] => some .backoff
   | ["resume", sid, "ok"] => some (.resume (nat sid) .ok)
   | ["resume", sid, "refused"] => some (.resume (nat sid) .refused)
   | ["closestream", sid] => some (.closeStream (nat sid))
@@ -44,6 +45,7 @@ def step (s : St) (line : String) : St × String :=
   match words line with
   | ["reset"] => ({}, "ok")
   | "probe" :: _ => (s, "-")
+  | ["failclose"] => let s' := Iscp.ConnM.step (Iscp.ConnM.step s (.dial false)) .close; (s', summary s')
   | w =>
     match parse w with
     | some e => let s' := Iscp.ConnM.step s e; (s', summary s')
